@@ -10,7 +10,7 @@ import implrun
 
 META = {
     'theorem_files': ['Props/C01.v'],
-    'theorems': [],
+    'theorems': ['C01_chunk_independent', 'C01_any_buffer_size', 'C01_bad_header_refused', 'C01_segment_construction', 'C01_format_parse_canon', 'C01_format_parse_exact', 'C01_format_parse_exact_interior', 'C01_parsed_has_shape', 'C01_format_parse_idempotent', 'C01_reread', 'C01_path_stream_agree', 'C01_blank_line_dropped'],
     'trusted_base': [
         'Coq 8.16.1 kernel; no native_compute',
         'Model/Raw.v, Model/Reader.v (reader_line), Model/Segment.v: hand transcription of RawX12File, '
